@@ -19,51 +19,69 @@ def showObj (s : St) (i : Nat) (o : Obj) : String :=
   let ch := joinWith "," ((sortNat o.children).map toString)
   s!"{i}:{o.refs}:{showGc o.gcRefs}:{o.gen}:h{s.roots.count i}:[{ch}]"
 
-def liveIds (s : St) : List Nat := (List.range s.heap.length).filter fun i => s.live i
+def liveIds (s : St) : List Nat := s.heap.zipIdx.filterMap fun (oo, i) => if oo.isSome then some i else none
 
 def dump (before : St) (s : St) : String :=
-  let objs := (liveIds s).filterMap fun i => (s.heap.get i).map (showObj s i)
-  let freed := (liveIds before).filter fun i => !s.live i
+  let objs := s.heap.zipIdx.filterMap fun (oo, i) => oo.map (showObj s i)
+  let freed := (before.heap.zip s.heap).zipIdx.filterMap fun ((b, a), i) => if b.isSome && a.isNone then some i else none
   s!"f={if s.fault then 1 else 0} p={s.p0},{s.p1},{s.p2},{s.p3} t={s.t0},{s.t1},{s.t2} | {joinWith " " objs} | freed=[{joinWith "," (freed.map toString)}]"
 
-def optStep (s : St) (r : Option St) : St × String :=
+/-- the result of one protocol line: new state, the `r=` value, and whether a dump follows
+(`none` = the line is not an operation) -/
+def optCore (s : St) (r : Option St) : Option (St × String × Bool) :=
   match r with
-  | some s' => (s', s!"r=ok {dump s s'}")
-  | none => (s, s!"r=ERR {dump s s}")
+  | some s' => some (s', "ok", true)
+  | none => some (s, "ERR", true)
 
-def step (s : St) (line : String) : St × String :=
-  match words line with
-  | ["new"] => let n : St := {}; (n, s!"r=new {dump n n}")
-  | ["new", "legacy"] => let n : St := { legacy := true }; (n, s!"r=new {dump n n}")
-  | ["alloc", _] => let (s', i) := alloc s; (s', s!"r={i} {dump s s'}")
+def core (s : St) (ws : List String) : Option (St × String × Bool) :=
+  match ws with
+  | ["new"] => some ({}, "new", true)
+  | ["new", "legacy"] => some ({ legacy := true }, "new", true)
+  | ["alloc", _] => let (s', i) := alloc s; some (s', toString i, true)
   | ["link", p, c] => match p.toNat?, c.toNat? with
-    | some p, some c => optStep s (link s p c)
-    | _, _ => (s, "bad-op")
+    | some p, some c => optCore s (link s p c)
+    | _, _ => none
   | ["unlink", p, c] => match p.toNat?, c.toNat? with
-    | some p, some c => optStep s (unlink s p c)
-    | _, _ => (s, "bad-op")
+    | some p, some c => optCore s (unlink s p c)
+    | _, _ => none
   | ["relink", p, c, d] => match p.toNat?, c.toNat?, d.toNat? with
-    | some p, some c, some d => optStep s (relink s p c d)
-    | _, _, _ => (s, "bad-op")
+    | some p, some c, some d => optCore s (relink s p c d)
+    | _, _, _ => none
   | ["clear", p] => match p.toNat? with
-    | some p => optStep s (clear s p)
-    | _ => (s, "bad-op")
+    | some p => optCore s (clear s p)
+    | _ => none
   | ["root", o] => match o.toNat? with
-    | some o => optStep s (addRoot s o)
-    | _ => (s, "bad-op")
+    | some o => optCore s (addRoot s o)
+    | _ => none
+  | ["take", p, c] => match p.toNat?, c.toNat? with
+    | some p, some c => optCore s (take s p c)
+    | _, _ => none
   | ["drop", o] => match o.toNat? with
-    | some o => optStep s (dropRoot s o)
-    | _ => (s, "bad-op")
+    | some o => optCore s (dropRoot s o)
+    | _ => none
   | ["gc", g] => match g.toInt? with
-    | some g => let (s', r) := gc s g; (s', s!"r={r} {dump s s'}")
-    | _ => (s, "bad-op")
+    | some g => let (s', r) := gc s g; some (s', toString r, true)
+    | _ => none
   | ["thr", g, t] => match g.toInt?, t.toInt? with
-    | some g, some t => let (s', r) := setThreshold s g t; (s', s!"r={r} {dump s s'}")
-    | _, _ => (s, "bad-op")
+    | some g, some t => let (s', r) := setThreshold s g t; some (s', toString r, true)
+    | _, _ => none
   | ["close"] =>
     let s' := teardown s
-    (s', s!"r=closed leak={(liveIds s').length}")
-  | _ => (s, "bad-op")
+    some (s', s!"closed leak={(liveIds s').length}", false)
+  | _ => none
+
+/-- a line starting with `q` is executed without a dump (long allocation loops of generated programs) -/
+def step (s : St) (line : String) : St × String :=
+  match words line with
+  | "q" :: ws => match core s ws with
+    | some (s', _, _) => (s', ".")
+    | none => (s, "bad-op")
+  | ws => match core s ws with
+    | some (s', r, true) =>
+      let before := match ws with | "new" :: _ => s' | _ => s
+      (s', s!"r={r} {dump before s'}")
+    | some (s', r, false) => (s', s!"r={r}")
+    | none => (s, "bad-op")
 
 def main : IO Unit := do
   forLines (← IO.getStdin) St {} step
